@@ -94,11 +94,24 @@ def run(ctx):
                         owners = h.by_kind["ByteInterval"] + h.by_kind["Section"]
                         h.emit([27, rng.choice(owners)])
                     ctx.count("extra_lookups:" + sname)
+            # a copy of the world (deep copy / pickle round trip, alternating per history) taken NOW -- before the final battery,
+            # with whatever index events this placement has left pending -- must answer the battery exactly as the original
+            # does: which lookups were issued before the copy was made is as unobservable on the copy as on the original
+            how = "deepcopy" if hi % 2 == 0 else "pickle"
+            w2 = world.copy_world(h.w, how) or world.copy_world(h.w, "deepcopy")
             fin = []
             for q in battery:
                 rep = h.emit(q)
                 fin.append(rep)
             finals[sname] = fin
+            if w2 is not None:
+                ctx.count("copies_queried:" + how)
+                finc = [w2.run(q) for q in battery]
+                if finc != fin:
+                    k = next(i for i in range(len(fin)) if finc[i] != fin[i])
+                    ctx.add("oracle", "schedule-dependent:copy:m%d" % battery[k][2],
+                            "placement %s: a %s of the world taken before the final lookups answers %s with %s, the original answers %s"
+                            % (sname, how, battery[k], finc[k], fin[k]), {"items": h.items, "battery": battery, "placement": sname, "copy": how})
             all_hists.append(h)
             ctx.case(sname + repr(h.items), True)
             # fresh-scan oracle on the final answers
